@@ -40,7 +40,7 @@
    inventory, which also names the runtime behaviours that are outside any model:
    native stack depth of recursive code, allocation size, run time, third-party crates.  *)
 From Coq Require Import List NArith Bool.
-From Verif Require Import Bytes RobustModel RobustProofs RobustLexProofs RobustTreeProofs RobustPostProofs RobustDepthProofs RobustIterSpec RobustIterProofs.
+From Verif Require Import Bytes RobustModel RobustProofs RobustLexProofs RobustTreeProofs RobustPostProofs RobustDepthProofs RobustIterSpec RobustIterProofs RobustTapTreeModel RobustTapTreeProofs.
 Import ListNotations.
 Local Open Scope N_scope.
 
@@ -154,6 +154,22 @@ Theorem rtl_post_order_iter_correct_C11 : forall t : rtree,
 Proof. exact rtl_post_order_correct. Qed.
 Print Assumptions rtl_post_order_iter_correct_C11.
 
+(* The taproot tree builder behind every `tr(KEY,{..})` text (TapTreeBuilder::{push_inner_node,
+   push_leaf, finalize} driven by Tr::from_tree's pre-order loop; Ms/RobustTapTreeModel.v): for
+   EVERY shape of the `{..}` expression the result is the list of leaf depths in order when the
+   tree is at most 128 deep and TapTreeDepthError otherwise.  Hence no `current_height -= 1` /
+   `+= 1` overflow, no `1 << current_height` with a shift >= 128, not the
+   `assert!(!depths_leaves.is_empty())` of finalize, and the while loop's fuel is never exhausted. *)
+Theorem tap_tree_builder_total : forall t : tshape,
+  (theight t <= 128 -> tap_parse t = ROk (tdepths t 0)) /\
+  (128 < theight t -> tap_parse t = RErr E_TAPTREE_DEPTH).
+Proof. exact tap_parse_total_proof. Qed.
+Print Assumptions tap_tree_builder_total.
+
+Theorem tap_tree_builder_never_panics : forall (t : tshape) (site : N), tap_parse t <> RPanic site.
+Proof. exact tap_parse_never_panics. Qed.
+Print Assumptions tap_tree_builder_never_panics.
+
 (* The depth guard (from_ast / validate compare ExtData::tree_height with 402): when every
    constructor computes 0 for a leaf and 1 + max of ALL its children (the formula the tie checks
    against the compiled ExtData for every constructor on every run), the guard bounds the REAL
@@ -210,6 +226,17 @@ Example post_order_nary_example :
   = Some [(1, 0, []); (3, 1, []); (2, 2, [1]); (4, 3, []); (6, 4, []); (7, 5, []); (5, 6, [4; 5]); (9, 7, [0; 2; 3; 6])]
   /\ last (rebuild (post_spec t 0)) rdummy = t.
 Proof. vm_compute. split; reflexivity. Qed.
+
+(* {{a,b},c}: depths 2 2 1; a left spine of 128 branches is accepted with a leaf at depth 128
+   (the complete_128 flag), 129 are an error value; the builder's panic sites exist in the model:
+   a push_leaf at height 129 would shift by 129 *)
+Example tap_tree_examples :
+  tap_parse (TB (TB TL TL) TL) = ROk [2; 2; 1] /\
+  hd_error (match tap_parse (left_spine 128) with ROk d => d | _ => [] end) = Some 128 /\
+  tap_parse (left_spine 129) = RErr E_TAPTREE_DEPTH /\
+  tb_push_leaf (mkTBuilder [] 0 false 129) = RPanic P_SHIFT /\
+  tb_finalize tb_new = RPanic P_ASSERT.
+Proof. vm_compute. repeat split; reflexivity. Qed.
 
 Example rtl_post_order_example :
   option_map (map (fun y => (y_label y, y_index y, y_children y)))
